@@ -254,7 +254,7 @@ def run(ctx):
     tot_states = tot_trans = 0
     bounds = []
     for (nmsgs, faults, early, depth) in ctx.pick([(1, 2, 1, 40), (2, 1, 0, 40)], [(1, 3, 2, 60), (2, 2, 1, 60), (2, 3, 0, 60), (3, 1, 0, 60)]):
-        cfg, r = core(ctx, nmsgs, faults, early, depth, ctx.pick(60, 900))
+        cfg, r = core(ctx, nmsgs, faults, early, depth, ctx.pick(900, 900))
         tot_states += r["states"]
         tot_trans += r["transitions"]
         bounds.append({"messages_per_direction": nmsgs, "fault_budget": faults, "early_timer_budget": early, "depth_completed": r["depth"], "closed": r["closed"], "states": r["states"], "capped": r["capped"]})
